@@ -6,7 +6,7 @@
    revocation / expiry and clock advance. *)
 From Coq Require Import List ZArith.
 From Verif Require Import Base.KV Locks.Interleave Locks.LockLog Locks.EtcdLock Locks.EtcdLockProofs
-  Locks.EtcdAcceptProofs Locks.RedisLock Locks.RedisLockProofs.
+  Locks.EtcdAcceptProofs Locks.RedisLock Locks.RedisLockProofs Locks.RedisAcceptProofs.
 
 (* ---- etcd ---- *)
 Theorem C18_etcd_mutex : forall s i j a b,
@@ -108,3 +108,8 @@ Theorem C18_redis_wait_timeout : forall s i c,
                    nth_error (rs_cs s2) i = Some c2 /\ r_pc c2 = RFailed RDeadline /\ rs_kv s2 = rs_kv s.
 Proof. exact redis_wait_timeout. Qed.
 Print Assumptions C18_redis_wait_timeout.
+
+Theorem C18_redis_agree_implies_mutex_ok : forall c,
+  RedisLock.ragree c = true -> no_lose (rk_log c) -> mutex_ok (rk_log c) = true.
+Proof. exact redis_agree_implies_mutex_ok. Qed.
+Print Assumptions C18_redis_agree_implies_mutex_ok.
